@@ -70,6 +70,17 @@ func genParseCase(r *Rng) (string, string) {
 		pad := r.Pick([]string{" ", "\t", "\n", " /* c */ ", "// c\n", " \n\n ", "/* a\nb */", ""})
 		lead := r.Pick([]string{"", " ", "\t", "\n", "/* c */", "// c\n"})
 		return lead + g.Print(e) + pad, "padded"
+	case c < 76:
+		// an unterminated block comment after (or inside) a complete expression: always an error, never "/ *x"
+		e := g.Gen("?", 1+r.Intn(4))
+		open := r.Pick([]string{" /* x", "/* c", " /*x y", " /* a\nb", "/*", " /* 1 + 2", "/*x*"})
+		if r.Chance(30) {
+			e2 := g.Gen("?", 1+r.Intn(2))
+			if tail := g.Print(e2); !strings.Contains(tail, "*/") { // a later "*/" would close the comment
+				return g.Print(e) + " + " + open + " " + tail, "opencomment"
+			}
+		}
+		return g.Print(e) + open, "opencomment"
 	case c < 84:
 		e := g.Gen("?", 1+r.Intn(4))
 		return g.Print(e) + r.Pick(exprSuffixes), "suffix"
